@@ -108,7 +108,7 @@ def run_case(rng, tier, idx):
     # ---------------- state-based path (fkG_num) ----------------
     c.nontrivial = True
     lam = d['lam']
-    F, SF = clt.ABD6(lam['stack'], lam['plyts'], lam['laminaprops'], lam['offset'])
+    F, SF = clt.ABD6(lam['stack'], lam['plyts'], lam['laminaprops'], lam['offset'], force_ortho=bool(lam.get('force_ortho')))
     nmaxg = 16 if tier == 'quick' else 64
     nx = int(rng.integers(2, nmaxg + 1)); ny = int(rng.integers(2, nmaxg + 1))
     NLgeom = bool(rng.random() < 0.5)
@@ -218,9 +218,17 @@ def run_case(rng, tier, idx):
         bc, _ = energy.block(Kc, row0, size_p)
         nxe, nye = energy.exact_orders(p)
         if nx >= nxe - 1 and ny >= nye - 1:
-            sc = np.abs(bc) + 1e-6 * np.abs(bc).max() + 1e-300
-            Nsc = (np.abs(F[:3, :3]) @ np.abs(e0)).max() / (np.abs(Nc).max() + 1e-300)
-            c.judge('uniform membrane state reproduces the constant-load matrix', float((np.abs(blk - bc) / sc).max()), 1e-8 * max(1.0, Nsc))
+            # scale: the matrix of the absolute-value resultants |A||e0| (a resultant that nearly cancels leaves entries whose
+            # round-off is set by the products it is summed from)
+            SN = np.abs(F[:3, :3]) @ np.abs(e0)
+            sc = np.zeros_like(bc)
+            for i in range(3):
+                Ni = [0.0, 0.0, 0.0]; Ni[i] = float(SN[i])
+                p.Nxx, p.Nyy, p.Nxy = Ni
+                sc += np.abs(energy.block(p.calc_kG0(size=size, row0=row0, col0=row0, silent=True), row0, size_p)[0])
+            p.Nxx, p.Nyy, p.Nxy = [float(v) for v in Nc]
+            sc = sc + 1e-6 * sc.max() + 1e-300
+            c.judge('uniform membrane state reproduces the constant-load matrix', float((np.abs(blk - bc) / sc).max()), 1e-8)
     if mode == 'per_point_table':
         K2 = p.calc_kG0(size=size, row0=row0, col0=row0, silent=True, c=cfull, nx=nx, ny=ny, Fnxny=None, NLgeom=NLgeom)
         b2, _ = energy.block(K2, row0, size_p)
